@@ -96,6 +96,9 @@ def _change_kind(change):
     if cls == "quantum.gates.ClassicalGate" and attr == "is_dagger"\
             and before is True and after is False and op == "subs":
         return "cg-dagger"
+    if cls in ("quantum.gates.Copy", "quantum.gates.Match") and attr == "class"\
+            and after == "quantum.gates.ClassicalGate" and op == "subs":
+        return "cg-subclass"
     return None
 
 
@@ -136,26 +139,76 @@ def p_cg_dagger(monitor, w):
 def p_cg_lambdify(monitor, w):
     return monitor == "lambdify-returns" and w.get("exception") == "TypeError"\
         and "cannot be interpreted as an integer" in w.get("message", "")\
-        and bool(w.get("failing_boxes"))\
-        and all(c == "quantum.gates.ClassicalGate" for c in w["failing_boxes"])
+        and w.get("raising_box") == "quantum.gates.ClassicalGate"
 
 
 def p_zx_lambdify(monitor, w):
     return monitor == "lambdify-returns" and w.get("exception") == "TypeError"\
         and "unexpected keyword argument '_dagger'" in w.get("message", "")\
-        and w.get("arm") == "zx" and bool(w.get("failing_boxes"))\
-        and all(c in ("quantum.zx.Z", "quantum.zx.X", "quantum.zx.Scalar")
-                for c in w["failing_boxes"])
+        and w.get("arm") == "zx"\
+        and w.get("raising_box") in ("quantum.zx.Z", "quantum.zx.X",
+                                     "quantum.zx.Scalar")
+
+
+_NDARRAY_CONSEQUENCES = (
+    "subs-box-data", "lambdify-box-data", "free-symbols-after",
+    "substituted-evaluates", "eval-commutes", "total-reports-no-symbols",
+    "total-evaluates-to-numbers", "lambdify-eval-model",
+    "lambdify-equals-subs-diagram", "lambdify-equals-subs-eval",
+    "box-lambdify-equals-box-subs", "attributes-preserved")
 
 
 def p_ndarray_data(monitor, w):
+    """
+    cat.rmap rebuilds a numpy array with type(data)([...]) == numpy.ndarray(
+    shape): TypeError, or (integer entries) an uninitialised array.  The
+    tensor arm marks the few diagrams built with such payloads.
+    """
+    if monitor in _NDARRAY_CONSEQUENCES:
+        return w.get("arm") == "tensor" and w.get("ndarray_payload") is True\
+            and w.get("op") in ("subs", "lambdify")
     return monitor in ("subs-returns", "lambdify-returns")\
         and w.get("exception") == "TypeError"\
         and "cannot be interpreted as an integer" in w.get("message", "")\
-        and bool(w.get("failing_boxes"))\
-        and all(c == "tensor.Box" for c in w["failing_boxes"])\
-        and w.get("failing_containers")\
-        and all(c == "ndarray" for c in w["failing_containers"])
+        and w.get("raising_box") == "tensor.Box"\
+        and w.get("raising_container") == "ndarray"
+
+
+def p_tensor_subs_plain(monitor, w):
+    if monitor != "tensor-subs-raw" or not w.get("plain_entries"):
+        return False
+    if w.get("failure") == "value-mismatch":
+        return w.get("mismatch_only_at_plain_entries") is True
+    message = w.get("message", "")
+    return w.get("failure") == "exception" and w.get("list_style")\
+        and w.get("exception") == "ValueError"\
+        and ("setting an array element with a sequence" in message
+             or "cannot reshape array" in message)
+
+
+def p_cqmap_subs(monitor, w):
+    return monitor == "cqmap-subs-model" and w.get("failure") == "exception"\
+        and w.get("value_class") == "CQMap" and w.get("exception") == "TypeError"\
+        and "object cannot be interpreted as an integer" in w.get("message", "")
+
+
+_DATALESS = ("quantum.gates.Bits", "quantum.gates.Digits")
+
+
+def p_cg_unguarded(monitor, w):
+    """ ClassicalGate.subs/lambdify applied to subclasses without the symbol. """
+    if monitor == "attributes-preserved":
+        return _change_kind(w.get("change", [])) == "cg-subclass"
+    raising = w.get("raising_box")
+    message = w.get("message", "")
+    if monitor in ("subs-returns", "lambdify-returns")\
+            and w.get("exception") == "AttributeError"\
+            and "'NoneType' object has no attribute" in message:
+        return raising in _DATALESS
+    if monitor == "lambdify-returns" and w.get("exception") == "TypeError"\
+            and "only integer scalar arrays" in message:
+        return raising in ("quantum.gates.Copy", "quantum.gates.Match")
+    return False
 
 
 PREDICATES = {
@@ -165,6 +218,9 @@ PREDICATES = {
     "classicalgate_lambdify": p_cg_lambdify,
     "zx_lambdify_signature": p_zx_lambdify,
     "box_data_ndarray": p_ndarray_data,
+    "tensor_subs_plain_numbers": p_tensor_subs_plain,
+    "cqmap_subs": p_cqmap_subs,
+    "classicalgate_subs_unguarded": p_cg_unguarded,
 }
 
 # --------------------------------------------------------------------------
@@ -314,6 +370,7 @@ def gen_tensor(rng, syms):
         else:
             data = list(entries)
         info["containers"].append(container)
+        info["ndarray"] = info.get("ndarray") or container == "ndarray"
         name = rng.choice("fghk")
         if rng.random() < 0.3:
             box = tensor.Box(name, Dim(*cod), Dim(*dom), data).dagger()
@@ -431,7 +488,7 @@ def gen_classical(rng, syms):
     n = rng.choice([0, 1, 1, 2])
     width = n
     d = Id(bit ** n)
-    if n and rng.random() < 0.5:
+    if n and rng.random() < 0.15:
         d = g.Bits(*[rng.randint(0, 1) for _ in range(n)])
     for _ in range(rng.randint(1, 3)):
         span = rng.randint(0, min(2, width))
@@ -442,8 +499,12 @@ def gen_classical(rng, syms):
         box = classical_gate(rng, syms, span, out)
         d = d >> Id(bit ** off) @ box @ Id(bit ** (width - off - span))
         width = width - span + out
-    if width and rng.random() < 0.3:
+    if width and rng.random() < 0.08:
         d = d >> Id(bit ** (width - 1)) @ g.Bits(rng.randint(0, 1)).dagger()
+    elif width == 1 and rng.random() < 0.08:
+        d = d >> g.Copy()
+    elif width == 2 and rng.random() < 0.1:
+        d = d >> g.Match()
     if rng.random() < 0.3:
         d = d @ g.Rx(rand_expr(rng, syms))
     return d, {}
@@ -633,14 +694,15 @@ DATA_FREE_NAME = ("quantum.gates.ClassicalGate", "tensor.Box",
                   "quantum.circuit.Box")
 
 
-def attribute_changes(ctx, d, new, op, style, arm):
+def attribute_changes(ctx, d, new, base):
     """ Per-box attribute comparison; returns the list of changes. """
     changes = []
     ok_shape = (new.dom == d.dom and new.cod == d.cod
                 and len(new.boxes) == len(d.boxes)
                 and list(new.offsets) == list(d.offsets))
-    expect(ctx, "shape-preserved", ok_shape, op=op, style=style, arm=arm,
-               before=lambda: safe_repr(d, 600), after=lambda: safe_repr(new, 600))
+    op = base["op"]
+    expect(ctx, "shape-preserved", ok_shape, after=lambda: safe_repr(new, 600),
+           **base)
     if not ok_shape:
         return None
     for i, (old, cur) in enumerate(zip(d.boxes, new.boxes)):
@@ -669,9 +731,8 @@ def attribute_changes(ctx, d, new, op, style, arm):
                              safe_repr(cur, 80), op])
         if mine:
             for change in mine:
-                report(ctx, "attributes-preserved", op=op, style=style, arm=arm,
-                         change=change, index=i,
-                         before=safe_repr(d, 400), after=safe_repr(new, 400))
+                report(ctx, "attributes-preserved", change=change, index=i,
+                       after=safe_repr(new, 400), **base)
         else:
             ctx.ok("attributes-preserved")
         changes += mine
@@ -687,7 +748,7 @@ def payload_vectors(old_payloads, new_payloads, envs):
     return [(sym.numeric(a, env), sym.numeric(b, env)) for env in envs], None
 
 
-def check_box_data(ctx, monitor, d, new, args_list, envs, op, style, arm):
+def check_box_data(ctx, monitor, d, new, args_list, envs, base):
     """ new payloads == sympy substitution of the old payloads, box by box. """
     model_symbols = set()
     for old, cur in zip(d.boxes, new.boxes):
@@ -702,10 +763,10 @@ def check_box_data(ctx, monitor, d, new, args_list, envs, op, style, arm):
         except sym.Unresolved as err:
             vectors, reason = None, "unresolved: {}".format(err)
         ok = vectors is not None and all(sym.close(x, y) for x, y in vectors)
-        expect(ctx, monitor, ok, op=op, style=style, arm=arm, box=clsname(old),
-                   reason=reason, expected=lambda: safe_repr(model, 300),
-                   got=lambda: safe_repr(cur.data, 300),
-                   sigma=lambda: safe_repr(args_list, 300))
+        expect(ctx, monitor, ok, box=clsname(old), reason=reason,
+               container=type(old.data).__name__,
+               expected=lambda: safe_repr(model, 300),
+               got=lambda: safe_repr(cur.data, 300), **base)
     return model_symbols
 
 
@@ -742,16 +803,27 @@ def apply_subs(d, args_list):
     return cur
 
 
-def locate_failing(d, call):
-    """ Which boxes raise when the operation is applied box by box. """
-    classes, containers = [], []
+def locate_failing(d, call, outer):
+    """
+    Which boxes raise when the operation is applied box by box, and which of
+    them raised the exception seen by the whole call (first with the same
+    type and message).  Returns witness fields.
+    """
+    failing = []
     for box in d.boxes:
         try:
             call(box)
-        except Exception:
-            classes.append(clsname(box))
-            containers.append(type(getattr(box, "data", None)).__name__)
-    return classes, containers
+        except Exception as err:
+            failing.append((clsname(box),
+                            type(getattr(box, "data", None)).__name__,
+                            type(err).__name__, str(err)[:300]))
+    same = [f for f in failing
+            if f[2] == type(outer).__name__ and f[3] == str(outer)[:300]]
+    first = (same or failing or [(None, None, None, None)])[0]
+    return dict(failing_boxes=[f[0] for f in failing],
+                failing_containers=[f[1] for f in failing],
+                raising_box=first[0], raising_container=first[1],
+                raising_box_has_symbol=None)
 
 
 def tensor_subs_checks(ctx, value, args_list, model, envs, base):
@@ -902,18 +974,17 @@ def one_substitution(ctx, rng, arm, d, drepr, classes, present, style,
                      args_list, evaluable, mixed, original, original_tensor, info):
     sigma = safe_repr(args_list, 400)
     base = dict(op="subs", style=style, arm=arm, diagram=drepr, sigma=sigma,
-                classes=classes)
+                classes=classes, ndarray_payload=bool(info.get("ndarray")))
     try:
         new = apply_subs(d, args_list)
     except Exception as err:
-        failing, containers = locate_failing(
-            d, lambda box: apply_subs(box, args_list))
         report(ctx, "subs-returns", exception=type(err).__name__,
-                 message=str(err)[:300], failing_boxes=failing,
-                 failing_containers=containers, **base)
+               message=str(err)[:300], **locate_failing(
+                   d, lambda box: apply_subs(box, args_list), err), **base)
+        subs_box_by_box(ctx, rng, d, args_list, present, base)
         return 0
     ctx.ok("subs-returns")
-    changes = attribute_changes(ctx, d, new, "subs", style, arm)
+    changes = attribute_changes(ctx, d, new, base)
     if changes is None:
         return 0
     if arm != "generic" and arm != "tensor" and arm != "zx":
@@ -928,7 +999,7 @@ def one_substitution(ctx, rng, arm, d, drepr, classes, present, style,
                 sub_syms |= value.free_symbols
     envs = sym.random_points(rng, sub_syms, n=3)
     remaining = check_box_data(ctx, "subs-box-data", d, new, args_list, envs,
-                               "subs", style, arm)
+                               base)
     expect(ctx, "free-symbols-after", set(new.free_symbols) == remaining,
                reported=lambda: safe_repr(sym.sort_symbols(new.free_symbols)),
                expected=lambda: safe_repr(sym.sort_symbols(remaining)),
@@ -989,7 +1060,8 @@ def one_lambdify(ctx, rng, arm, d, drepr, classes, present, evaluable, mixed,
     vs = [rand_value(rng, rng.choice(["float", "float", "int"])) for _ in xs]
     sigma = safe_repr(list(zip(xs, vs)), 300)
     base = dict(op="lambdify", style="lambdify", arm=arm, diagram=drepr,
-                sigma=sigma, classes=classes)
+                sigma=sigma, classes=classes,
+                ndarray_payload=bool(info.get("ndarray")))
     if info.get("has_dict"):
         ctx.count("lambdify-skipped-dict-payload")
         return 0
@@ -1002,22 +1074,20 @@ def one_lambdify(ctx, rng, arm, d, drepr, classes, present, evaluable, mixed,
     try:
         lam = d.lambdify(*xs)(*vs)
     except Exception as err:
-        failing, containers = locate_failing(
-            d, lambda box: box.lambdify(*xs)(*vs))
         report(ctx, "lambdify-returns", exception=type(err).__name__,
-                 message=str(err)[:300], failing_boxes=failing,
-                 failing_containers=containers, **base)
+               message=str(err)[:300], **locate_failing(
+                   d, lambda box: box.lambdify(*xs)(*vs), err), **base)
         box_by_box(ctx, d, xs, vs, pairs, envs, base)
         return 0
     ctx.ok("lambdify-returns")
-    changes = attribute_changes(ctx, d, lam, "lambdify", "lambdify", arm)
+    changes = attribute_changes(ctx, d, lam, base)
     if changes is None:
         return 0
     if arm not in ("generic", "tensor", "zx"):
         expect(ctx, "mixedness-preserved", bool(lam.is_mixed) == bool(d.is_mixed),
                    failure="flag", attr_changes=changes, **base)
     remaining = check_box_data(ctx, "lambdify-box-data", d, lam, [(pairs,)],
-                               envs, "lambdify", "lambdify", arm)
+                               envs, base)
     expect(ctx, "free-symbols-after", set(lam.free_symbols) == remaining,
                reported=lambda: safe_repr(sym.sort_symbols(lam.free_symbols)),
                expected=lambda: safe_repr(sym.sort_symbols(remaining)),
@@ -1091,6 +1161,22 @@ def structural_changes(a, b):
         if old.dom != cur.dom or old.cod != cur.cod:
             out.append([x["cls"], "dom/cod", None, None, "subs"])
     return out
+
+
+def subs_box_by_box(ctx, rng, d, args_list, present, base):
+    """ Payload monitor per box when the whole substitution raised. """
+    envs = sym.random_points(rng, set(present) | set(_S["fresh"]), n=2)
+    for box in d.boxes:
+        if not sym.box_symbols(box):
+            continue
+        try:
+            new = apply_subs(box, args_list)
+        except Exception:
+            ctx.count("box-subs-raised:" + clsname(box))
+            continue
+        if len(new.boxes) == 1:
+            check_box_data(ctx, "subs-box-data", box, new, args_list, envs,
+                           base)
 
 
 def box_by_box(ctx, d, xs, vs, pairs, envs, base):
